@@ -84,7 +84,20 @@ def mutant_table():
     return '\n'.join(rows)
 
 
-for tag, fn in (('SEEDED', seeded_table), ('MUTANTS', mutant_table)):
+def proprules_table():
+    import sys
+    sys.path.insert(0, HERE)
+    from sa import proptable  # noqa: F401
+    from sa.properties import PROPERTIES
+    rows = ['| property | quick rules | thorough adds |', '|---|---|---|']
+    for pid in sorted(PROPERTIES):
+        p = PROPERTIES[pid]
+        rows.append('| %s | %s | %s |' % (pid, ' '.join(p['rules']), ' '.join(p['thorough_rules']) or
+                                          '(same rules on CPython 3.11 / 3.12 / 3.13 / 3.13t)'))
+    return '\n'.join(rows)
+
+
+for tag, fn in (('SEEDED', seeded_table), ('MUTANTS', mutant_table), ('PROPRULES', proprules_table)):
     a, b = '<!-- BEGIN:%s -->' % tag, '<!-- END:%s -->' % tag
     if a in text and b in text:
         text = text[:text.index(a) + len(a)] + '\n' + fn() + '\n' + text[text.index(b):]
